@@ -1,0 +1,11 @@
+//go:build verif
+
+package decoder
+
+import "github.com/makiuchi-d/gozxing/verifhook"
+
+// VerifSnapshot hashes the package-level tables (monitor use only: taken at
+// quiescent points before and after a concurrent workload).
+func VerifSnapshot() uint64 {
+	return verifhook.DeepHash(C40_BASIC_SET_CHARS, C40_SHIFT2_SET_CHARS, TEXT_BASIC_SET_CHARS, TEXT_SHIFT2_SET_CHARS, TEXT_SHIFT3_SET_CHARS, versions)
+}
